@@ -182,6 +182,11 @@ const("pm_header_length", PM + "types/header_v3.rs", [(r"pub fn len\(\) -> u64 \
 const("pm_metadata_position", PM + "writer.rs", [(r"writer\.set_position\((\d+)\)\?;\s*let mut header = HeaderV3::from_parameters", num)], "writer: the metadata starts here; header and root directory lie in front of it")
 const("pm_root_area_end", PM + "writer.rs", [(r"entries\.as_directory\((\d+) - HeaderV3::len\(\)", num)], "writer: the root directory budget is this minus the header length")
 
+const("tidx_offset_variant", VT + "types/tile_index.rs", [
+    (r"pub fn add_offset.{0,400}?r\.offset \+= offset", 0),
+    (r"pub fn add_offset.{0,400}?r\.offset = r\.offset\.saturating_add\(offset\)", 1),
+], "add_offset: 0 = unchecked `r.offset += offset`, 1 = saturating_add")
+
 def main():
     out = ["(* GENERATED by tools/scrape_constants.py from /repo — do not edit *)",
            "From Coq Require Import NArith.", "Local Open Scope N_scope.", ""]
